@@ -180,7 +180,10 @@ def record_case(case):
         if case["closed"]:
             rec["dn_edge"] = int(d.n_edge)
         stage = "dual node positions"
-        rec["pos"] = match_positions(d.node_lon.values, d.node_lat.values, cen)
+        if "file" not in case:
+            # independent oracle (normalised mean of the corner unit vectors).  A file may supply its own
+            # centres (MPAS: the cell's generating point), then "the face's centre" is the supplied one.
+            rec["pos"] = match_positions(d.node_lon.values, d.node_lat.values, cen)
         own = [unit_of_lonlat(float(a), float(b)) for a, b in zip(g.face_lon.values, g.face_lat.values)]
         rec["posown"] = match_positions(d.node_lon.values, d.node_lat.values, own)
         if case["closed"] and case.get("data", True):
